@@ -91,11 +91,11 @@ def chains(tier, rng):
              ('(g for g in G if g.n is not None)', {})]
     orders = {'p': [[('p.a', False), ('p.id', False)], [('p.a', True), ('p.id', True)], [('p.id', True)], [('p.s', False), ('p.id', False)], [('p.b', False), ('p.a', True), ('p.id', False)]],
               'g': [[('g.n', False), ('g.id', False)], [('g.name', True), ('g.id', False)]]}
-    slices = [(0, None), (0, 0), (0, 1), (0, 2), (1, None), (1, 2), (1, 3), (2, None), (2, 3), (1, 1), (2, 1), (None, 2), (None, None), (3, None), (0, 3)]
+    slices = [(None, 0), (1, 0), (0, None), (0, 0), (0, 1), (0, 2), (1, None), (1, 2), (1, 3), (2, None), (2, 3), (1, 1), (2, 1), (None, 2), (None, None), (3, None), (0, 3)]
     for src, sc in bases:
         var = e1.loop_var(src)
         for order in orders[var]:
-            sl = slices if tier == 'thorough' else rng.sample(slices, 6)
+            sl = slices if tier == 'thorough' else rng.sample(slices, 6) + [(0, 0), (None, 0), (1, 0)]      # (a stop of exactly 0 is always there)
             for a, b in sl:
                 progs.append(Program(src, sc, 'string', 'slice', chain={'order': order, 'final': ('slice', a, b)}))
             for l, o in ([(1, None), (2, 1), (None, 1), (0, 2), (5, 0)] if tier == 'thorough' else [(2, 1), (None, 1)]):
@@ -136,6 +136,11 @@ def chains(tier, rng):
     for kws in ([{'a': 1}], [{'a': 1}, {'f': True}], [{'a': 1}, {'b': 2}, {'f': False}], [{'b': None}, {'a': 2}], [{'a': 1, 'b': 2}, {'s': 'a'}, {'f': True}, {'h': None}]):
         progs.append(Program('(p for p in P)', {}, 'string', 'kwfilters', chain={'kwfilters': kws, 'final': ('list',)}))
         progs.append(Program('(p for p in P if p.a > x)', X, 'string', 'kwfilters', chain={'kwfilters': kws, 'filters': ['lambda p: p.u is None'], 'final': ('aggr', 'COUNT')}))
+    # a keyword filter followed by a lambda whose aggregate makes pony re-translate the whole chain (LEFT JOIN optimisation)
+    for kw, lam in [({'n': 1}, 'lambda g: len(g.ps) >= 1'), ({'name': 'a'}, 'lambda g: count(g.ps) > x'), ({'n': None}, 'lambda g: sum(g.ps.a) > x'), ({'n': 2}, 'lambda g: len(g.tags) > 0')]:
+        for fin in (('list',), ('aggr', 'COUNT')):
+            progs.append(Program('(g for g in G)', X if 'x' in lam else {}, 'string', 'kw-then-aggregate', chain={'kwfilters': [kw], 'filters_after': [lam], 'final': fin}))
+        progs.append(Program('(g for g in G)', X if 'x' in lam else {}, 'string', 'kw-then-aggregate', chain={'kwfilters': [kw], 'filters_after': [lam], 'order': [('g.id', True)], 'final': ('slice', 0, 1)}))
     return progs
 
 
